@@ -22,7 +22,7 @@ SPEC = {
     "assumptions": ["vlib/avm.py scratch/frame semantics", "sha256 chain over read-back values computed independently in Python"],
     "min_evaluations": {"quick": 600, "thorough": 6000},
     "must_reach": ["readback_ok", "explicit_ids_honoured", "index_observed", "dynamic_alias_ok", "over_256_rejected", "duplicate_id_rejected",
-                   "full_256_compiled", "frame_locals_over_128", "recursion_spill_ok"],
+                   "full_256_compiled", "frame_locals_over_128", "recursion_spill_ok", "abi_output_sub_ok", "reused_options_object"],
     "shard_timeout": {"quick": 600, "thorough": 7200},
 }
 
@@ -55,7 +55,7 @@ def gen_case(rng, big=False):
     version = rng.choice([5, 6, 7, 8, 9, 10])
     if rest >= 6 and rng.random() < .5 and not big:
         sv = rng.choice([1, 3, 8])
-        sub = {"n_sv": min(sv, rest - 1), "n_abi": rng.choice([0, 2, 20, 127, 128, 129, 140]), "recursive": rng.random() < .5}
+        sub = {"n_sv": min(sv, rest - 1), "n_abi": rng.choice([0, 2, 20, 126, 127, 128, 129, 140]), "recursive": rng.random() < .5, "abi_out": rng.random() < .4}
         rest -= sub["n_sv"]
         if version < 8:
             # scratch convention: the subroutine's ABI locals take slots too
@@ -173,9 +173,27 @@ def build(pt, case):
             chk += [pt.Assert(x.get() == n * I(1000) + I(500 + j)) for j, x in enumerate(ab)]
             return pt.Seq(*st, *chk, n + I(1))
         body.__name__ = "locals_sub"
-        subr = pt.Subroutine(pt.TealType.uint64)(body)
-        steps.append(absorb(pt.Itob(subr(I(2)))))
+        if sd.get("abi_out"):
+            # the same locals inside an ABI-returning routine (its output occupies frame cell 0 under frame pointers)
+            def abody(n: pt.abi.Uint64, *, output: pt.abi.Uint64):
+                nn = n.get()
+                loc = [pt.ScratchVar(pt.TealType.uint64) for _ in range(sd["n_sv"])]
+                ab = [pt.abi.Uint64() for _ in range(sd["n_abi"])]
+                st = [x.store(nn * I(1000) + I(j)) for j, x in enumerate(loc)]
+                st += [x.set(nn * I(1000) + I(500 + j)) for j, x in enumerate(ab)]
+                chk = [pt.Assert(x.load() == nn * I(1000) + I(j)) for j, x in enumerate(loc)]
+                chk += [pt.Assert(x.get() == nn * I(1000) + I(500 + j)) for j, x in enumerate(ab)]
+                return pt.Seq(*st, *chk, output.set(nn + I(1)))
+            abody.__name__ = "locals_abi_sub"
+            asub = pt.ABIReturnSubroutine(abody)
+            arg, res = pt.abi.Uint64(), pt.abi.Uint64()
+            steps += [arg.set(2), asub(arg).store_into(res), absorb(pt.Itob(res.get()))]
+            exp["extra_live"] = 2
+        else:
+            subr = pt.Subroutine(pt.TealType.uint64)(body)
+            steps.append(absorb(pt.Itob(subr(I(2)))))
         chain((3).to_bytes(8, "big"))
+    exp["n_live"] = len(vars_) + len(dyns) + 2 * len(mvs)
     # read everything back in another order
     order2 = list(range(len(vars_)))
     rng.shuffle(order2)
@@ -186,6 +204,17 @@ def build(pt, case):
     for mv in mvs:
         steps.append(absorb(pt.Itob(mv.hasValue())))
         chain((0).to_bytes(8, "big"))
+    # explicitly numbered variables that are stored and read exactly once, back to back: the slot optimiser must leave requested
+    # ids alone (they are visible to other transactions through gload), so the value must still be in the slot at exit
+    if exp["n_live"] <= 240:
+        free = [i for i in range(256) if i not in case["explicit"]]
+        for sid in rng.sample(free, 2):
+            w = pt.ScratchVar(pt.TealType.uint64, sid)
+            m = marker(False)
+            steps.append(pt.Seq(w.store(I(m)), pt.Pop(w.load())))
+            exp["explicit_final"][sid] = m
+            exp["markers"].append(m)
+            exp["n_live"] += 1
     # observe index() of a few explicit variables at run time
     ex = [v for v in vars_ if v[0] == "explicit"]
     for v in ex[:4]:
@@ -196,18 +225,22 @@ def build(pt, case):
             exp["explicit_final"][v[4]] = v[2]
         if v[0] in ("auto", "explicit"):
             exp["markers"].append(v[2])
-    exp["n_live"] = len(vars_) + len(dyns) + 2 * len(mvs)
+    exp["n_live"] += 0
     steps.append(I(1))
     return pt.Seq(*steps), exp
 
 
-def check_case(pt, acc, case):
+def check_case(pt, acc, case, shared_opts=None):
     from ..common import PT_ERRORS, h, reset_globals
     reset_globals()
     acc.evaluations += 1
     try:
         prog, exp = build(pt, case)
         opt = pt.OptimizeOptions(scratch_slots=case["ss"], frame_pointers=case["fp"])
+        if shared_opts is not None and case["order"] % 2 == 0:
+            # one options object kept for many programs: what an earlier compilation left on it must not matter
+            opt = shared_opts.setdefault((case["ss"], case["fp"]), opt)
+            acc.counters["reused_options_object"] += 1
         teal = pt.compileTeal(prog, pt.Mode.Application, version=case["version"], optimize=opt)
     except PT_ERRORS as e:
         acc.violation("fitting_program_rejected", case, "%s: %s" % (type(e).__name__, str(e)[:300]))
@@ -233,6 +266,8 @@ def check_case(pt, acc, case):
         acc.counters["dynamic_alias_ok"] += 1
     if case["sub"]:
         acc.counters["recursion_spill_ok" if case["sub"]["recursive"] else "sub_locals_ok"] += 1
+        if case["sub"].get("abi_out"):
+            acc.counters["abi_output_sub_ok"] += 1
         if case["sub"]["n_abi"] > 128 and any(I.op == "proto" for I in p.instrs):
             acc.counters["frame_locals_over_128"] += 1
     if exp["n_live"] >= 256:
@@ -327,8 +362,9 @@ def run_shard(shard):
     rng = rng_for(shard["seed"], "c10", shard["shard"])
     for kind in KINDS:
         must_reject(pt, acc, rng, kind)
+    shared_opts = {}
     for i in range(shard["n"]):
-        check_case(pt, acc, gen_case(rng, big=(i % 9 == 8)))
+        check_case(pt, acc, gen_case(rng, big=(i % 9 == 8)), shared_opts)
         if i % 3 == 0:
             must_reject(pt, acc, rng)
     return acc.result()
